@@ -112,6 +112,7 @@ var checks = map[string][]HarnessSpec{
 		{Name: "verifC16Cache", Pkg: ".", Labels: []string{"history", "cache-hit"}},
 		{Name: "verifC16Repeat", Pkg: ".", Labels: []string{"repeat"}},
 		{Name: "verifC16Keys", Pkg: ".", Labels: []string{"keys"}},
+		{Name: "verifC16Constructors", Pkg: ".", Labels: []string{"constructors"}},
 		{Name: "verifC16ZeroTTLConcurrent", Pkg: ".", Labels: []string{"zero-ttl"}},
 		{Name: "verifC16Race", Pkg: ".", Labels: []string{"race-checked"}, Race: true},
 	},
